@@ -117,6 +117,7 @@ def api_history(ctx, ss, clock, i, immutable):
     now0 = int(clock.seconds())
     secrets_used = {M.secret(k) for k in list(range(0, 8)) + list(range(30, 40)) + list(range(50, 60))}
     ops, results = [], []
+    forced = []
     for step in range(r.randint(4, 10)):
         pre_files = M.read_bucket(ss, si)
         kinds = {n: version_of(raw) for n, raw in pre_files.items()}
@@ -137,7 +138,18 @@ def api_history(ctx, ss, clock, i, immutable):
                 tw[n] = ([], M.gen_datav(r, cur, 1500), r.choice([None, None, None, 0, 40, 700]))
             op = ("tw", (WE, rs, cs), tw, [], r.random() < 0.85)
         else:
-            op = ("add", rs, cs)
+            # an uploader / repairer asks for some share numbers: mostly a proper subset of the held
+            # ones (e.g. {2,3} of {0,1,2,3}), sometimes all, none, or numbers the server does not hold
+            held = sorted(pre_files)
+            sub = r.sample(held, r.randint(0, max(0, len(held) - 1))) if r.random() < 0.75 else list(held)
+            if r.random() < 0.3:
+                sub.append(r.choice([3, 4, 5]))
+            op = ("alloc", rs, cs, sorted(set(sub)))
+            if r.random() < 0.5:            # the clock moves forward first, so that a renewal is visible
+                forced.append(op)
+                op = ("tick", r.choice([3600, 86400, 10 * 86400]))
+        if forced:
+            op = forced.pop(0)
         op = M.with_order(ss, si, op)
         now = int(clock.seconds())
         res = M.run_sop(ss, clock, si, op)
@@ -162,6 +174,27 @@ def api_history(ctx, ss, clock, i, immutable):
                 if before[n]:
                     deep = (repr(sorted(before.items())), repr(op[:3]))
                 label = "add:" + what
+        elif op[0] == "alloc":
+            # allocate_buckets reports every held share and puts / renews the caller's lease on EVERY
+            # held share, whichever numbers the request names
+            if res != ("ok", sorted(pre_files)):
+                ctx.oracle_fail("lease-allocate-wrong-answer", "allocate_buckets(%r) answered %r with shares %r held" % (op[3], res, sorted(pre_files)),
+                                case=case, expected=repr(sorted(pre_files)), observed=repr(res))
+            for n in pre_files:
+                key = M.renew_key(kinds[n][1], op[1])
+                want, what = expect_add_or_renew(before[n], key, expiry)
+                got = table_of(os.path.join(d, "%d" % n), kinds[n][0])
+                if sorted(got) != sorted(want) and n not in op[3] and sorted(got) == sorted(before[n]):
+                    ctx.oracle_fail("lease-allocate-skips-unnamed-held-share",
+                                    "allocate_buckets naming shares %r left held share %d without the caller's lease / renewal (held: %r)"
+                                    % (op[3], n, sorted(pre_files)), case=case, expected=repr(want), observed=repr(got))
+                else:
+                    check_tables(ctx, "allocate_buckets", case, n, before[n], want, got, post_files[n], secrets_used, kinds[n])
+            if pre_files:
+                deep = (repr(sorted(before.items())), repr(op[:4]))
+                if r.random() < 0.6:
+                    forced.append(("renew", op[1]))        # the holder then renews with its own secret
+            label = "alloc:" + ("subset" if set(pre_files) - set(op[3]) else "all")
         elif op[0] == "renew":
             # per share, in listing order: shares holding the secret are renewed until one does not
             failed = not pre_files
